@@ -1,0 +1,104 @@
+//go:build verif
+
+package engine
+
+// Contracts for package engine, read by /verif/govc (comment-only file, build tag verif).
+
+//@ func (ProcessValueString).getString [C11]
+//@   ensures result == docToStr(box(ProcessValueString, v))
+//@ func (ProcessValueString).getNumber [C11]
+//@   ensures result == docToNum(box(ProcessValueString, v))
+//@ func (ProcessValueString).getBoolean [C11]
+//@   ensures result == docToBool(box(ProcessValueString, v))
+//@ func (ProcessValueNumber).getString [C11]
+//@   ensures result == docToStr(box(ProcessValueNumber, v))
+//@ func (ProcessValueNumber).getNumber [C11]
+//@   ensures result == docToNum(box(ProcessValueNumber, v))
+//@ func (ProcessValueNumber).getBoolean [C11]
+//@   ensures result == docToBool(box(ProcessValueNumber, v))
+//@ func (ProcessValueBoolean).getString [C11]
+//@   ensures result == docToStr(box(ProcessValueBoolean, v))
+//@ func (ProcessValueBoolean).getNumber [C11]
+//@   ensures result == docToNum(box(ProcessValueBoolean, v))
+//@ func (ProcessValueBoolean).getBoolean [C11]
+//@   ensures result == docToBool(box(ProcessValueBoolean, v))
+//@ func (ProcessValueString).getType [C11]
+//@   ensures result == tagOf(box(ProcessValueString, v))
+//@ func (ProcessValueNumber).getType [C11]
+//@   ensures result == tagOf(box(ProcessValueNumber, v))
+//@ func (ProcessValueBoolean).getType [C11]
+//@   ensures result == tagOf(box(ProcessValueBoolean, v))
+
+// ---- process-language evaluator (execute.go) ----
+// evalv(e, dom, vals): the value of expression e in the environment whose key set is dom and
+// whose bindings are vals. wt(e, dom, vals): every operator in e is applied to operands whose
+// run-time types form a combination of the documented table (docAdmitted / docUnaryAdmitted).
+// The axioms below define both by structural recursion from the documented tables; the
+// evaluator is proved to compute evalv on every wt expression.
+
+//@ specfunc evalv(ast.AstProcessExpression, (Array Str Bool), (Array Str Iface)) ProcessValue
+//@ specfunc wt(ast.AstProcessExpression, (Array Str Bool), (Array Str Iface)) Bool
+
+//@ axiom wt_known: forall e ast.AstProcessExpression, d (Array Str Bool), m (Array Str Iface) :: { wt(e, d, m) }
+//@    wt(e, d, m) ==> knownValue(evalv(e, d, m)) && (e is ast.AstProcessBinaryExpression || e is ast.AstProcessUnaryExpression
+//@      || e is ast.AstProcessString || e is ast.AstProcessNumber || e is ast.AstProcessBoolean || e is ast.AstProcessVariable)
+//@ axiom wt_bin: forall b ast.AstProcessBinaryExpression, d (Array Str Bool), m (Array Str Iface) :: { wt(box(ast.AstProcessBinaryExpression, b), d, m) }
+//@    wt(box(ast.AstProcessBinaryExpression, b), d, m) ==> wt(b.Lhs, d, m) && wt(b.Rhs, d, m)
+//@      && docAdmitted(tagOf(evalv(b.Lhs, d, m)), b.Op, tagOf(evalv(b.Rhs, d, m)))
+//@ axiom wt_un: forall b ast.AstProcessUnaryExpression, d (Array Str Bool), m (Array Str Iface) :: { wt(box(ast.AstProcessUnaryExpression, b), d, m) }
+//@    wt(box(ast.AstProcessUnaryExpression, b), d, m) ==> wt(b.Expr, d, m) && docUnaryAdmitted(b.Op, tagOf(evalv(b.Expr, d, m)))
+//@ axiom wt_var: forall b ast.AstProcessVariable, d (Array Str Bool), m (Array Str Iface) :: { wt(box(ast.AstProcessVariable, b), d, m) }
+//@    wt(box(ast.AstProcessVariable, b), d, m) ==> (select(d, b.Name) ==> knownValue(select(m, b.Name)))
+//@ axiom evalv_bin: forall b ast.AstProcessBinaryExpression, d (Array Str Bool), m (Array Str Iface) :: { evalv(box(ast.AstProcessBinaryExpression, b), d, m) }
+//@    evalv(box(ast.AstProcessBinaryExpression, b), d, m) == docBinary(evalv(b.Lhs, d, m), b.Op, evalv(b.Rhs, d, m))
+//@ axiom evalv_un: forall b ast.AstProcessUnaryExpression, d (Array Str Bool), m (Array Str Iface) :: { evalv(box(ast.AstProcessUnaryExpression, b), d, m) }
+//@    evalv(box(ast.AstProcessUnaryExpression, b), d, m) == docUnary(b.Op, evalv(b.Expr, d, m))
+//@ axiom evalv_str: forall b ast.AstProcessString, d (Array Str Bool), m (Array Str Iface) :: { evalv(box(ast.AstProcessString, b), d, m) }
+//@    evalv(box(ast.AstProcessString, b), d, m) == mkS(b.Value)
+//@ axiom evalv_num: forall b ast.AstProcessNumber, d (Array Str Bool), m (Array Str Iface) :: { evalv(box(ast.AstProcessNumber, b), d, m) }
+//@    evalv(box(ast.AstProcessNumber, b), d, m) == mkN(b.Value)
+//@ axiom evalv_bool: forall b ast.AstProcessBoolean, d (Array Str Bool), m (Array Str Iface) :: { evalv(box(ast.AstProcessBoolean, b), d, m) }
+//@    evalv(box(ast.AstProcessBoolean, b), d, m) == mkB(b.Value)
+//@ axiom evalv_var: forall b ast.AstProcessVariable, d (Array Str Bool), m (Array Str Iface) :: { evalv(box(ast.AstProcessVariable, b), d, m) }
+//@    evalv(box(ast.AstProcessVariable, b), d, m) == (select(d, b.Name) ? select(m, b.Name) : mkS(""))
+
+//@ pred envDom(st ProcessState) := domain(st.environment)
+//@ pred envVals(st ProcessState) := values(st.environment)
+
+//@ func executeExpression [C11 C09]
+//@   requires s != nil
+//@   requires state.environment != nil
+//@   requires wt(*s, envDom(state), envVals(state))
+//@   ensures value: result.currentValue == evalv(*s, old(envDom(state)), old(envVals(state)))
+//@   ensures frame: result.environment == state.environment && result.status == state.status
+//@ func executeBinaryExpr [C11 C09]
+//@   requires s != nil
+//@   requires state.environment != nil
+//@   requires wt(box(ast.AstProcessBinaryExpression, *s), envDom(state), envVals(state))
+//@   ensures table: result.currentValue == docBinary(evalv(s.Lhs, old(envDom(state)), old(envVals(state))), s.Op, evalv(s.Rhs, old(envDom(state)), old(envVals(state)))) [C11]
+//@   ensures value: result.currentValue == evalv(box(ast.AstProcessBinaryExpression, *s), old(envDom(state)), old(envVals(state)))
+//@   ensures frame: result.environment == state.environment && result.status == state.status
+//@ func executeUnaryExpression [C11 C09]
+//@   requires s != nil
+//@   requires state.environment != nil
+//@   requires wt(box(ast.AstProcessUnaryExpression, *s), envDom(state), envVals(state))
+//@   ensures table: result.currentValue == docUnary(s.Op, evalv(s.Expr, old(envDom(state)), old(envVals(state)))) [C11]
+//@   ensures value: result.currentValue == evalv(box(ast.AstProcessUnaryExpression, *s), old(envDom(state)), old(envVals(state)))
+//@   ensures frame: result.environment == state.environment && result.status == state.status
+//@ func executeString [C11 C09]
+//@   requires s != nil
+//@   ensures value: result.currentValue == evalv(box(ast.AstProcessString, *s), old(envDom(state)), old(envVals(state)))
+//@   ensures frame: result.environment == state.environment && result.status == state.status
+//@ func executeNumber [C11 C09]
+//@   requires s != nil
+//@   ensures value: result.currentValue == evalv(box(ast.AstProcessNumber, *s), old(envDom(state)), old(envVals(state)))
+//@   ensures frame: result.environment == state.environment && result.status == state.status
+//@ func executeBoolean [C11 C09]
+//@   requires s != nil
+//@   ensures value: result.currentValue == evalv(box(ast.AstProcessBoolean, *s), old(envDom(state)), old(envVals(state)))
+//@   ensures frame: result.environment == state.environment && result.status == state.status
+//@ func executeVariable [C11 C09]
+//@   requires s != nil
+//@   requires state.environment != nil
+//@   ensures value: result.currentValue == evalv(box(ast.AstProcessVariable, *s), old(envDom(state)), old(envVals(state)))
+//@   ensures frame: result.environment == state.environment && result.status == state.status
